@@ -312,7 +312,7 @@ Proof.
       destruct (double_facts _ HI Hmd) as (sv0 & s' & Hsv & Hall & Hes & Hsl).
       rewrite Hsv, last_z_snoc in Hlast. injection Hlast as ->.
       split; [unfold upper_limit; rewrite Hmd, Hsv, last_z_snoc; lia|].
-      rewrite <- Hsv. eapply Forall_impl; [|exact Hall]. cbn. intros; lia.
+      eapply Forall_impl; [|exact Hall]. cbn. intros; lia.
     - apply last_z_none in Hlast. rewrite Hlast. split; [|constructor].
       unfold upper_limit. rewrite Hlast. destruct (l_mode l); cbn; lia. }
   destruct (match last_z (second l) with
